@@ -51,6 +51,14 @@ def make_spans(layout: list[tuple[str, str, list[int | None], list[str]]]) -> li
     return out
 
 
+def expand(entry: list[Any]) -> list[Any]:
+    """a long trace is written compactly: parents "flat:N" = a root with N-1 children, names = the pool they cycle through"""
+    if isinstance(entry[2], str) and entry[2].startswith("flat:"):
+        n = int(entry[2].split(":")[1])
+        return [entry[0], entry[1], [None] + [0] * (n - 1), [entry[3][i % len(entry[3])] for i in range(n)]]
+    return entry
+
+
 def config(tmp: str, async_flag: bool) -> Any:
     from tel2puml.otel_to_pv.config import load_config_from_dict
     fm = {f: {"key_paths": [f"spans.[].{f}"], "value_type": "string"} for f in
@@ -96,7 +104,7 @@ def run_case(case: dict[str, Any]) -> dict[str, Any]:
     from tel2puml.otel_to_pv.otel_to_pv import otel_to_pv
     from tel2puml.pv_to_puml.pv_to_puml import pv_job_file_to_event_sequence
     from tel2puml.tel2puml_types import PVEventMappingConfig
-    spans = make_spans([tuple(x) for x in case["layout"]])
+    spans = make_spans([tuple(expand(x)) for x in case["layout"]])
     mc = mapping(case["custom"])
     viol: list[dict[str, Any]] = []
     tmp = tempfile.mkdtemp(prefix="vrt_", dir="/dev/shm" if os.path.isdir("/dev/shm") else None)
@@ -155,7 +163,7 @@ def run_case(case: dict[str, Any]) -> dict[str, Any]:
                 viol.append({"key": "routes/ensures.same_model", "what": f"{wf}: events differing between otel2puml and otel2pv+pv2puml: {diff}", "case": case})
     finally:
         shutil.rmtree(tmp, ignore_errors=True)
-    odd = any(nm != nm.strip() or not nm.isascii() for lay in case["layout"] for nm in lay[3])
+    odd = any(nm != nm.strip() or not nm.isascii() for lay in case["layout"] for nm in lay[3]) and not any(isinstance(lay[2], str) for lay in case["layout"])
     return {"violations": viol, "nontrivial": [json.dumps(case)], "sample": case if odd and case["custom"] else None}
 
 
@@ -170,6 +178,10 @@ def domain(tier: str, rng: random.Random) -> Any:
         for custom in (False, True):
             for asy in (False, True):
                 yield {"layout": twins, "custom": custom, "async": asy}
+    # one long trace (more events than any plausible per-file or per-batch limit) next to short ones
+    for custom in (False, True):
+        yield {"layout": [["t0", "wf one", "flat:1101", ["open", "poll", "close\t"]], ["t1", "wf one", [None, 0], ["open", "ok"]], ["t2", "wf2", [None], ["ok"]]],
+               "custom": custom, "async": False}
     for k in range(n):
         layout = []
         for ti in range(rng.randrange(2, 5)):
